@@ -642,6 +642,9 @@ func writeEvidence(verif, prop, tier string, seed int, cov map[string]interface{
 }
 
 // writeReplay records a violation; returns the suffix for the VIOLATION line.
+// replayBudget bounds the number of replay searches per run (each may take a minute).
+var replayBudget = 3
+
 func writeReplay(P *Program, path, prop, name, reason string, o *Oblig) string {
 	rec := map[string]interface{}{
 		"property":   prop,
@@ -661,11 +664,17 @@ func writeReplay(P *Program, path, prop, name, reason string, o *Oblig) string {
 			rec["query"] = o.Result.Query
 			if len(o.Result.Model) > 0 {
 				rec["model"] = o.Result.Model
+			}
+			if replayBudget > 0 {
+				replayBudget--
 				rp := tryReplay(P, o)
 				rec["replay"] = rp
 				if rp != nil && rp.Confirmed {
 					suffix = ""
+					rec["failing_input"] = rp.Input
 				}
+			} else {
+				rec["replay"] = &ReplayResult{Note: "replay budget of this run used up by earlier violations"}
 			}
 		}
 	}
